@@ -5,12 +5,12 @@ import z3
 from sx import core as S, env as E, pl, plh, families as F, poly
 
 PROPERTY = "C01"
-REGIONS = ["active", "non-active", "integer-leaf", "16-bit-leaf", "negative-parent-over-compound", "shared-subproposition", "top-true-reachable", "top-false-reachable"]
+REGIONS = ["active", "non-active", "integer-leaf", "16-bit-leaf", "negative-parent-over-compound", "shared-subproposition", "top-true-reachable", "top-false-reachable", "after-sibling-models"]
 BOUNDS = ("PL family skeletons (<=7 compounds, depth<=3) with CONCRETE thresholds/signs/boxes (the model must cross the Rust encoder, M7): "
           "thresholds from {min-1..max+1 of the node's range}, integer boxes from {(0,1),(-2,3),(-5,10),(2,2),(0,4),(-3,-1),(-32768,32767)}; "
           "the leaf assignment is fully symbolic inside the boxes (including the 65536-value ranges)")
 OUTSIDE = "larger skeletons; thresholds/boxes other than the instantiated ones; reduced=True; int64 overflow"
-FAMILY = "curated + seeded PL skeletons x seeded re-parameterisations x active in {True, False}"
+FAMILY = "curated + seeded PL skeletons x seeded re-parameterisations x active in {True, False}; plus the same model encoded after sibling models (same ids, nested thresholds moved by one) in the same interpreter"
 ASSUMPTIONS = ["M7: TheoryPy.to_ge_polyhedron is called for real (not modelled)", "M4", "M5 structural",
                "reference truth values are the per-node bounds returned by the real evaluate_propositions run symbolically (C03 checks those)"]
 
@@ -31,6 +31,10 @@ def instantiations(tier, seed):
             m = F.rename(sk if r == 0 else poly.reparam(sk, rng), names)
             for active in (True, False):
                 out.append({"model": m, "active": active})
+            # the same model encoded after sibling models over the same ids were encoded in the same interpreter
+            sib = poly.siblings(m)
+            if sib and (r == 0 or tier != "quick"):
+                out.append({"model": m, "active": True, "before": sib})
     base = F.AL(2, F.a(), F.i(), F.AL(1, F.b(), F.c(), id="B", sign=1), id="A", sign=1)
     for mu in ("shift_b", "drop_iff"):
         out.append({"kind": "mutant", "mutant": mu, "model": base, "active": True})
@@ -51,6 +55,15 @@ def run_inst(spec, run):
     if poly.prefixed(ns, m):
         return run.skipped("a sub-proposition is pre-fixed to a constant (excluded by the property)")
     leaves = pl.leaves(model_spec)
+    for sb in spec.get("before", []):
+        try:
+            sm = pl.build(ns, sb, {})
+            sm.to_ge_polyhedron(active=True)
+            sm.to_ge_polyhedron(active=False)
+        except Exception:   # noqa
+            pass
+    if spec.get("before"):
+        run.region("after-sibling-models")
     try:
         M = m.to_ge_polyhedron(active=active)
     except Exception as e:   # noqa
